@@ -501,7 +501,12 @@ func nearMiss(rnd *hx.Rand, s string) string {
 	if s == "" {
 		return rnd.Pick("x", " ", "0")
 	}
-	switch rnd.Intn(5) {
+	switch rnd.Intn(6) {
+	case 5:
+		if u := strings.ToUpper(s); u != s {
+			return u // the comparisons are case sensitive
+		}
+		return strings.ToLower(s) + "_"
 	case 0:
 		return s + " "
 	case 1:
@@ -1334,6 +1339,23 @@ func runScan(ms []driver.Matcher, sc *scanScenario) (string, map[string]int) {
 	return got, counts
 }
 
+// preflight calls Filter of every matcher on every record, and Query, in this goroutine.
+func preflight(ms []driver.Matcher, sc *scanScenario) string {
+	for _, m := range ms {
+		m := m
+		if out := hx.Guard(func() string { m.Query(); return "" }); out != "" {
+			return fmt.Sprintf("%s.Query() panics", m.Name())
+		}
+		for i, rec := range sc.ir.IndexRecords() {
+			rec := rec
+			if out := hx.Guard(func() string { m.Filter(rec); return "" }); out != "" {
+				return fmt.Sprintf("%s.Filter panics on record %d of the report (package %q, distribution %v, repository %v)", m.Name(), i, rec.Package.Name, rec.Distribution != nil, rec.Repository != nil)
+			}
+		}
+	}
+	return ""
+}
+
 // scanOps: scenarios for every ecosystem through the default matcher set.
 func (e *env) scanOps(rounds int) {
 	r, rnd := e.r, e.rnd
@@ -1379,6 +1401,12 @@ func (e *env) scanOps(rounds int) {
 				r.Fail("", fmt.Sprintf("scan: IndexReport.IndexRecords yields %d records, %d environments were built: %s", n, len(sc.recs), sc.describe()))
 				continue
 			}
+			// Match runs every controller in a goroutine of its own, where a panic would end the process:
+			// put each record to every Filter (and ask for every Query) here first
+			if bad := preflight(ms, sc); bad != "" {
+				r.Fail("", "scan: "+bad+": "+sc.describe())
+				continue
+			}
 			got, counts := runScan(ms, sc)
 			r.Op(sc.line(), got, true)
 			r.Count("scan:" + eco.id + ":" + sc.set + ":" + got[:1])
@@ -1392,6 +1420,16 @@ func (e *env) scanOps(rounds int) {
 			}
 			// the statement, pair by pair
 			errExpected := strings.HasPrefix(got, "E")
+			if errExpected {
+				// by construction only a package version outside its scheme makes a matcher fail
+				bad := false
+				for _, part := range parts {
+					bad = bad || part.badVersion
+				}
+				if !bad {
+					r.Fail("", "scan: matcher.Match returned an error although every version parses in its scheme (a failing matcher loses all its results): "+sc.describe())
+				}
+			}
 			for _, part := range parts {
 				pids := map[string]bool{}
 				for _, rec := range part.recs {
